@@ -23,12 +23,17 @@ FUNCTIONS = ['MIP.geom.cells.get_cell_importances', 'ParseMCNPCell.parse_importa
              'construct_volume_t4 conv_keys filter', 'writeT4Geometry skip'] 
 
 
-def slab_deck(ncells):
+def slab_deck(ncells, rnd=None):
+    """slabs along x; the cell numbers are NOT in increasing order (a data-card importance goes by the
+    position of the card in the cell block, not by the rank of the cell number)."""
     d = dk.Deck()
     d.surfs = [dk.Surf(i + 1, 'px', [Fr(i)]) for i in range(ncells)]
+    ids = list(range(1, ncells + 1))
+    if rnd is not None and rnd.random() < 0.75:
+        ids = rnd.sample(range(1, 60), ncells)
     for k in range(1, ncells):
-        d.cells.append(dk.Cell(k, ('and', ('s', k), ('s', -(k + 1))), imp=None))
-    d.cells.append(dk.Cell(ncells, ('or', ('s', -1), ('s', ncells)), imp=None))
+        d.cells.append(dk.Cell(ids[k - 1], ('and', ('s', k), ('s', -(k + 1))), imp=None))
+    d.cells.append(dk.Cell(ids[ncells - 1], ('or', ('s', -1), ('s', ncells)), imp=None))
     return d
 
 
@@ -108,8 +113,14 @@ dk.Tokens.tok = _tok
 def make(task):
     sd, ncells, mode = task
     rnd = random.Random(sd)
-    d = slab_deck(ncells)
     pre = []
+    if mode == 'fill':
+        # level-0 containers filled with a universe: the importance that decides is the container's own,
+        # whatever the importances of the cells of the universe
+        d, pre = gen.fill_deck(rnd, depth=1, reuse=rnd.random() < 0.4, spelling=rnd.choice(['none', 'disp', 'trcl']),
+                               inner=rnd.choice(['slab', 'two']), nsym=1)
+    else:
+        d = slab_deck(ncells, rnd)
     d.imp_ref = {}
     k = 0
 
@@ -123,6 +134,10 @@ def make(task):
             pre.append((v - RatFn.const(10)).z3_cmp('<='))
             return v
         return Fr(rnd.choice([0, 0, 1, 3]))
+    if mode == 'fill':
+        for c in d.cells:
+            c.imp = val() if c.u is None else Fr(rnd.choice([0, 0, 1, 2]))
+            c.imp_on_card = True
     if mode in ('card', 'mix'):
         for c in d.cells:
             if mode == 'card' or rnd.random() < 0.5:
@@ -183,9 +198,9 @@ def run(tier):
     rep = Report(PROP, tier, 'translation_validation')
     rep.functions = FUNCTIONS
     base = seed() * 7919
-    modes = ['card', 'data', 'mix', 'data2']
-    nd = 48 if tier == 'quick' else 2000
-    tasks = [(base + i, 2 + i % 3, modes[i % 4]) for i in range(nd)]
+    modes = ['card', 'data', 'mix', 'data2', 'fill']
+    nd = 60 if tier == 'quick' else 2000
+    tasks = [(base + i, 2 + i % 3, modes[i % 5]) for i in range(nd)]
     for r in run_pool(worker, tasks):
         rep.merge(r)
     rep.explanation = ('Slab decks of 2-4 cells whose importances come from cell cards, IMP data cards (with nR/nM/nI shorthand) or both; '
